@@ -1,6 +1,6 @@
 (** The HSMS-SS receive loop ([hsmsss/transport_recv.go]: [recvLoop] / [readFrame] / [readN]) as a
     machine over TIMED SEGMENTS [(gap, bytes)]: [bytes] arrive together, [gap] after the previous
-    segment (virtual time). The machine consumes one byte at a time — how the bytes were grouped
+    segment (virtual time); [bytes] may be empty (a [Read] returning (0, nil)). The machine consumes one byte at a time — how the bytes were grouped
     into reads is therefore irrelevant by construction EXCEPT for time, which is what the T8
     policy is about:
 
@@ -34,7 +34,7 @@ Inductive phase :=
 Record rstate := mkR {
   alive : bool;
   ph : phase;
-  since : Z     (* virtual time since the last byte arrived *)
+  since : Z     (* virtual time since the last Read returned (see [arrive]) *)
 }.
 Definition rinit : rstate := mkR true (PLen []) 0.
 
@@ -75,9 +75,16 @@ Definition wait (t8 : Z) (s : rstate) (gap : Z) : rstate * list event :=
     if started s && (t >? t8) then (dead (mkR true (ph s) t), [EvDrop DT8])
     else (mkR true (ph s) t, []).
 
+(** A segment is one return of [conn.Read]. Its bytes may be EMPTY: [Read] = (0, nil), which an
+    in-memory or wrapped conn (public [WithDialer]) can produce. [readN] then loops: it carries no
+    frame byte, so it does NOT start a frame ([started] is set only when n > 0) — after it an idle
+    wait is still an idle wait; but the loop re-arms the deadline before the next [Read], so inside
+    a frame it restarts the T8 clock exactly like a byte does. [arrive] is that re-arming. *)
+Definition arrive (s : rstate) : rstate := if alive s then mkR true (ph s) 0 else s.
+
 Definition step_seg (t8 cap : Z) (s : rstate) (seg : Z * list Z) : rstate * list event :=
   let '(s1, e1) := wait t8 s (fst seg) in
-  let '(s2, e2) := feed cap s1 (snd seg) in
+  let '(s2, e2) := feed cap (arrive s1) (snd seg) in
   (s2, e1 ++ e2).
 
 Fixpoint run_segs (t8 cap : Z) (s : rstate) (segs : list (Z * list Z)) : rstate * list event :=
